@@ -214,7 +214,7 @@ func verifyUnit(w *World, u *Unit, opt Options) *UnitResult {
 			return
 		}
 		q := ex.header() + ex.prefix(len(ex.items)) + "(assert " + or(ex.returnReach...) + ")\n"
-		r := solve(q, sanitize(u.Name)+".vac", 3000, false, false)
+		r := solveCover(q, sanitize(u.Name)+".vac", 3000)
 		switch r.Status {
 		case "sat":
 			vac <- "ok"
@@ -233,7 +233,7 @@ func verifyUnit(w *World, u *Unit, opt Options) *UnitResult {
 		go func() {
 			defer dwg.Done()
 			q := ex.header() + ex.prefix(len(ex.items)) + "(assert " + rr + ")\n"
-			r := solve(q, fmt.Sprintf("%s.dead%d", sanitize(u.Name), i), 3000, false, false)
+			r := solveCover(q, fmt.Sprintf("%s.dead%d", sanitize(u.Name), i), 3000)
 			if r.Status == "unsat" {
 				dmu.Lock()
 				res.DeadReturns = append(res.DeadReturns, i+1)
@@ -247,7 +247,7 @@ func verifyUnit(w *World, u *Unit, opt Options) *UnitResult {
 		go func() {
 			defer dwg.Done()
 			q := ex.header() + ex.prefix(len(ex.items)) + "(assert " + br + ")\n"
-			r := solve(q, fmt.Sprintf("%s.back%d", sanitize(u.Name), i), 3000, false, false)
+			r := solveCover(q, fmt.Sprintf("%s.back%d", sanitize(u.Name), i), 3000)
 			if r.Status == "unsat" {
 				dmu.Lock()
 				res.DeadBack = append(res.DeadBack, ex.backPos[i])
